@@ -59,7 +59,11 @@ func c19GenReal(r *rand.Rand, tier string) *c19Case {
 	for i := range c.Steps {
 		if rq := c.Steps[i].Req; rq != nil {
 			rq.Canceled = false
-			if rq.Host != "" {
+			if rq.Scheme != "" && (rq.Host == "" || r.Intn(2) == 0) {
+				// the request line goes to the TCP connection as it is: empty authority, no path, userinfo,
+				// any scheme in any case reach the real server's parser (round 9)
+				rq.Raw = true
+			} else if rq.Scheme != "" {
 				rq.Scheme = "http" // an https target would make the client CONNECT
 				if !strings.HasPrefix(rq.URI, "/") {
 					rq.URI = "/" + rq.URI // net/http's client never sends an empty path
@@ -71,7 +75,10 @@ func c19GenReal(r *rand.Rand, tier string) *c19Case {
 			rq.WS = r.Intn(5) == 0
 			if rq.WS {
 				// websocket upgrade over a plain TCP connection: Body / Resp.Body travel through the tunnel
-				rq.Method, rq.Scheme, rq.Host = "GET", "", ""
+				rq.Method, rq.Scheme, rq.Host, rq.Raw = "GET", "", "", false
+				if !strings.HasPrefix(rq.URI, "/") {
+					rq.URI = "/" + rq.URI // origin form again: a path-less target exists in absolute form only
+				}
 				rq.Body, rq.Resp.Body = c19GenBytes(r, "quick"), c19GenBytes(r, "quick")
 				if r.Intn(4) == 0 {
 					rq.Body = nil
@@ -434,6 +441,57 @@ func c19WSClient(addr string, rq *c19Req) (*httptest.ResponseRecorder, error) {
 	return w, nil
 }
 
+// a request whose target is in absolute form, written to a TCP connection byte for byte: what a
+// forward-proxy client sends, including the forms net/http's own client cannot produce (empty
+// authority, empty path, userinfo, schemes other than "http")
+func c19RawAbsClient(addr string, rq *c19Req) (*httptest.ResponseRecorder, error) {
+	conn, err := net.DialTimeout("tcp", addr, c19IOTimeout)
+	if err != nil {
+		return nil, err
+	}
+	defer conn.Close()
+	conn.SetDeadline(time.Now().Add(c19IOTimeout))
+	var sb strings.Builder
+	fmt.Fprintf(&sb, "%s %s://%s%s HTTP/1.1\r\nHost: front.test\r\n", rq.Method, rq.Scheme, rq.Host, rq.URI)
+	for _, kv := range rq.Headers {
+		fmt.Fprintf(&sb, "%s: %s\r\n", kv[0], kv[1])
+	}
+	sb.WriteString("Connection: close\r\n")
+	switch {
+	case rq.Chunked && (len(rq.Body) > 0 || !c19UsuallyLacksBody[rq.Method]):
+		sb.WriteString("Transfer-Encoding: chunked\r\n\r\n")
+		for b := rq.Body; len(b) > 0; {
+			n := len(b)
+			if n > 1000 {
+				n = 1000
+			}
+			fmt.Fprintf(&sb, "%x\r\n%s\r\n", n, b[:n])
+			b = b[n:]
+		}
+		sb.WriteString("0\r\n\r\n")
+	case len(rq.Body) > 0:
+		fmt.Fprintf(&sb, "Content-Length: %d\r\n\r\n%s", len(rq.Body), rq.Body)
+	default:
+		sb.WriteString("\r\n")
+	}
+	if _, err := io.WriteString(conn, sb.String()); err != nil {
+		return nil, err
+	}
+	resp, err := http.ReadResponse(bufio.NewReader(conn), &http.Request{Method: rq.Method})
+	if err != nil {
+		return nil, fmt.Errorf("no HTTP response on the connection: %v", err)
+	}
+	w := httptest.NewRecorder()
+	for k, vs := range resp.Header {
+		w.Header()[k] = vs
+	}
+	w.Code = resp.StatusCode
+	b, _ := io.ReadAll(resp.Body)
+	resp.Body.Close()
+	w.Body.Write(b)
+	return w, nil
+}
+
 func c19RunE2E(c *c19Case) (res Result) {
 	p := c19GetPool()
 	if p.err != "" {
@@ -685,7 +743,7 @@ func c19RunE2E(c *c19Case) (res Result) {
 		calls.mu.Unlock()
 		var rr *httptest.ResponseRecorder
 		var panicked any
-		abs := rq.Host != ""
+		abs := rq.Scheme != "" // the authority may be empty
 		hijackable := c.Kind == 5
 		// a zero-byte upload of unknown length is still a (chunked) server body — unless the method usually
 		// has no body: then net/http's client probes the reader and sends no body at all
@@ -719,6 +777,16 @@ func c19RunE2E(c *c19Case) (res Result) {
 				q := *rq
 				q.Headers = hdrs
 				w, err := c19WSClient(front.Listener.Addr().String(), &q)
+				if err != nil {
+					panic(c19Dropped(fmt.Sprintf("the client's connection was dropped without an answer (%v)", err)))
+				}
+				rr = w
+				return
+			}
+			if c.Kind == 5 && abs && (rq.Raw || rq.Host == "") {
+				q := *rq
+				q.Headers = hdrs
+				w, err := c19RawAbsClient(front.Listener.Addr().String(), &q)
 				if err != nil {
 					panic(c19Dropped(fmt.Sprintf("the client's connection was dropped without an answer (%v)", err)))
 				}
@@ -1858,10 +1926,36 @@ func c19GenE2E(r *rand.Rand, tier string, weird bool) *c19Case {
 				// request target in absolute form
 				rq.Scheme = []string{"http", "http", "https"}[r.Intn(3)]
 				rq.Host = []string{"ex.test", "EX.test:8080", "127.0.0.1:80", "[::1]:9", "a-b.c", "api"}[r.Intn(6)]
+				if r.Intn(3) == 0 {
+					// the authority as a size / shape class of its own (round 9): EMPTY (`http:///p`, `http://`,
+					// `http://?x=1` — net/http accepts them, the Host header names the host), one byte, a
+					// bare port, IPv6 literals without / with port.  What the rules are matched against starts
+					// at the first `/` or `?` after "://", wherever that is — also at offset 0.
+					rq.Host = []string{"", "", "", "h", "h", ":80", "[::1]", "[2001:db8::1]:8080", "9"}[r.Intn(9)]
+				}
 				if r.Intn(8) == 0 || short != 0 && r.Intn(3) == 0 {
-					// no path at all: `GET http://host HTTP/1.1`, `GET http://host?x=1 HTTP/1.1` (the upstream is asked for `/`)
-					rq.URI = []string{"", "?x=1", "?"}[r.Intn(3)]
+					// no path at all: `GET http://host HTTP/1.1`, `GET http://host?x=1 HTTP/1.1` (the upstream is asked for `/`);
+					// a `?` before any `/` ends the authority: slashes after it belong to the query
+					rq.URI = []string{"", "?x=1", "?", "?/", "?u=/a/b&v=//c"}[r.Intn(5)]
 					rq.Want, rq.Rule = []string{"/" + rq.URI}, 0
+					if short == 0 && len(gens) > 0 && r.Intn(2) == 0 { // (beside `^/?*` the two rules would overlap once the target reads `/?to=…`)
+						// the query carries a path a rule is made for: an anchored rule must NOT fire (the matched
+						// string starts with `?`), a rule without anchor matches where its literal starts (as in
+						// origin form, see the look-alike targets above)
+						j := r.Intn(len(gens))
+						inner, innerWant := gens[j].gen(r)
+						switch pat := gens[j].rule.Pat; {
+						case strings.HasPrefix(pat, "^"):
+							rq.URI = "?to=" + inner
+							rq.Want = []string{"/" + rq.URI}
+						case !strings.HasPrefix(pat, "*"):
+							rq.URI = "?to=" + inner
+							rq.Want, rq.Rule = []string{innerWant}, j+1
+							if innerWant == inner {
+								rq.Want, rq.Rule = []string{"/" + rq.URI}, 0
+							}
+						}
+					}
 				}
 				if r.Intn(4) == 0 {
 					// legal but unusual: scheme not in lower case (RFC 3986 3.1), userinfo in the authority
@@ -1965,8 +2059,13 @@ func c19ShrinkE2E(c *c19Case) []any {
 			func(q *c19Req) bool { ok := q.Method != "GET" && len(q.Body) == 0; q.Method = "GET"; return ok },
 			func(q *c19Req) bool { ok := q.Resp.Status != 200; q.Resp.Status = 200; return ok },
 			func(q *c19Req) bool {
-				ok := q.Host != "" && strings.HasPrefix(q.URI, "/") // a path-less target exists in absolute form only
-				q.Host, q.Scheme = "", ""
+				ok := q.Scheme != "" && strings.HasPrefix(q.URI, "/") // a path-less target exists in absolute form only
+				q.Host, q.Scheme, q.Raw = "", "", false
+				return ok
+			},
+			func(q *c19Req) bool { // an ordinary authority
+				ok := q.Scheme != "" && q.Host != "h"
+				q.Host = "h"
 				return ok
 			},
 			func(q *c19Req) bool { ok := q.WS; q.WS = false; return ok },
